@@ -27,7 +27,7 @@ type verifNameCase struct {
 // through the human-ID lookup of their profile; malformed identifiers are errors and
 // never reach the database; everything else is anonymous.
 //
-//verif:harness name=H03c-names tier=quick,thorough bounds="DoT / DoQ / DoH servers with device domains {d.example, dev.example.net}; 12 TLS server names (case variants, nested labels, look-alike domains, extended IDs, malformed IDs) or 8 DoH paths; database answers found / not found" reach=by-device-id,by-human-id,malformed,anonymous maxpaths=100000
+//verif:harness name=H03c-names tier=quick,thorough bounds="DoT / DoQ / DoH servers with device domains {d.example, dev.example.net}; 15 TLS server names (case variants, nested labels, look-alike domains, extended IDs, malformed IDs) or 8 DoH paths; database answers found / not found" reach=by-device-id,by-human-id,malformed,anonymous maxpaths=100000
 //verif:assume identifiers from a finite list of shapes (concrete strings)
 func VerifC03Names() {
 	proto := []agd.Protocol{agd.ProtoDoT, agd.ProtoDoQ, agd.ProtoDoH}[verifChoice(3)]
@@ -49,6 +49,9 @@ func VerifC03Names() {
 		{s: "x.abcd1234.d.example"},
 		{s: "d.example"},
 		{s: "abcd1234.dd.example"},
+		{s: "abcd1234xd.example"},  // the device domain is a suffix, but not at a label boundary
+		{s: "abcd1234-d.example"},
+		{s: "abcd123.xd.example"},
 		{s: "abcd1234.d.example.org"},
 		{s: "otr-prof1234-My-Phone.d.example", humanID: "my-phone"},
 		{s: "OTR-PROF1234-tv.d.example", humanID: "tv"},
